@@ -95,6 +95,13 @@ def credit_consistency(row, out):
     untraced = sum(n for (k, n) in m if k == "untraced" and n != "?")
     if any(n == "?" for (k, n) in m):
         probs.append("metric event with a non-constant count")
+    traced = sum(n for (k, n) in m if k == "traced" and n != "?")
+    if traced:
+        probs.append("[credits-over] `traced` credited %d time(s) by a primitive that traces no object" % traced)
+    for other in ("remembered", "dropped", "freed", "allocated"):
+        c = sum(n for (k, n) in m if k == other and n != "?")
+        if c:
+            probs.append("[credits-over] `%s` credited by a mutator-side primitive" % other)
     if marked != left_white:
         probs.append("[credits-%s] credited marked=%d but %d object(s) left White" % (
             "over" if marked > left_white else "under", marked, left_white))
@@ -629,7 +636,8 @@ def spec_adopt(row):
         for e in out.panics():
             if not str(e[1]).startswith("user ") and e[1] != "callback":
                 probs.append("path panics: %s" % (e,))
-        probs += only_colour_moves(row, out, {1: set(REGRAY)})
+        # the holder may be re-grayed; for stash (which knows the child) marking the child is an equally valid barrier
+        probs += only_colour_moves(row, out, {1: set(REGRAY), 2: set(STRONG_MARK)})
         if out.kind != "return":
             continue
         stored = out.has("cell_store") or getattr(row, "ret_write", False) or out.has("unlocked")
